@@ -61,6 +61,9 @@ type Batch struct {
 	Cases []*schema.Case
 	Src   []byte
 	Names map[string]string // case ID -> Go type name
+	// separately generated imported package (import batch only): source and directory below the option directory
+	DepSrc []byte
+	DepDir string
 }
 
 func (b *Batch) PkgName() string { return fmt.Sprintf("o%db%d", b.Opt, b.Index) }
@@ -197,6 +200,96 @@ func BuildBatches(sup *schema.Support, cases []*schema.Case, opt int, chk *tc.Ch
 	return out, dropped
 }
 
+// BuildImportBatch generates the import cases in separate import mode: dep.bop into its own package (the importer's
+// option set without PrivateDefinitions, the configuration the generator documents), the importing file into the batch
+// package. modPrefix is the import path under which WritePackage's root will be visible (".../gen").
+func BuildImportBatch(is *schema.ImportSet, opt int, chk *tc.Checker, index int, modPrefix string) (*Batch, []Dropped) {
+	b := &Batch{Opt: opt, Index: index, DepDir: "dep"}
+	depPath := fmt.Sprintf("%s/o%d/dep", modPrefix, opt)
+	dropAll := func(phase, cat, msg string) (*Batch, []Dropped) {
+		var d []Dropped
+		for _, c := range is.Cases {
+			d = append(d, Dropped{CaseID: c.ID, Class: c.Class, Opt: opt, Phase: phase, Category: cat, Msg: msg})
+		}
+		return nil, d
+	}
+	depText, mainText := is.Render(depPath, "dep.bop")
+	dir, err := os.MkdirTemp("", "verif-imp-")
+	if err != nil {
+		vlib.Fatal("%v", err)
+	}
+	defer os.RemoveAll(dir)
+	if err := os.WriteFile(filepath.Join(dir, "dep.bop"), []byte(depText), 0o644); err != nil {
+		vlib.Fatal("%v", err)
+	}
+	gen := func(text, fileName string, st bebop.GenerateSettings) (out []byte, phase string, err error) {
+		defer func() {
+			if r := recover(); r != nil {
+				phase, err = "panic", fmt.Errorf("panic: %v", r)
+			}
+		}()
+		f, _, err := bebop.ReadFile(strings.NewReader(text))
+		if err != nil {
+			return nil, "readfile", err
+		}
+		f.FileName = fileName
+		var buf bytes.Buffer
+		if err := f.Generate(&buf, st); err != nil {
+			return nil, "generate", err
+		}
+		return buf.Bytes(), "", nil
+	}
+	dst := driver.Settings(opt &^ driver.OptPrivate)
+	depSrc, ph, err := gen(depText, filepath.Join(dir, "dep.bop"), dst)
+	if err != nil {
+		return dropAll("import-dep-"+ph, "rejected", err.Error())
+	}
+	dres := chk.Check("dep.go", depSrc)
+	if !dres.OK() {
+		msg := "imported package does not type-check"
+		if len(dres.Errs) > 0 {
+			msg = tc.ErrLine(dres.Errs[0])
+		}
+		return dropAll("import-dep-typecheck", "typecheck", msg)
+	}
+	chk.AddPackage(depPath, dres.Pkg)
+	mst := driver.Settings(opt)
+	mst.PackageName = b.PkgName()
+	mst.ImportGenerationMode = bebop.ImportGenerationModeSeparate
+	src, ph, err := gen(mainText, filepath.Join(dir, "main.bop"), mst)
+	if err != nil {
+		return dropAll("import-"+ph, "rejected", err.Error())
+	}
+	res := chk.Check("gen.go", src)
+	if !res.OK() {
+		cat, msg := "syntax", ""
+		if res.ParseErr != nil {
+			msg = res.ParseErr.Error()
+		} else {
+			cat, msg = tc.Category(res.Errs[0]), tc.ErrLine(res.Errs[0])
+		}
+		return dropAll("import-typecheck", cat, msg)
+	}
+	names, err := recordNames(src)
+	if err != nil {
+		vlib.Fatal("cannot re-parse generated source: %v", err)
+	}
+	byLower := map[string]string{}
+	for _, n := range names {
+		byLower[strings.ToLower(n)] = n
+	}
+	b.Names = map[string]string{}
+	for _, c := range is.Cases {
+		n, ok := byLower[strings.ToLower(c.Rec.Name)]
+		if !ok {
+			vlib.Fatal("generated source has no record assertion for import case %s", c.ID)
+		}
+		b.Names[c.ID] = n
+	}
+	b.Cases, b.Src, b.DepSrc = is.Cases, src, depSrc
+	return b, nil
+}
+
 func renderCase(c *schema.Case) string {
 	var sb strings.Builder
 	schema.RenderRecord(&sb, c.Rec, "")
@@ -211,6 +304,15 @@ func (b *Batch) WritePackage(root string) (importSuffix string, err error) {
 	}
 	if err := os.WriteFile(filepath.Join(dir, "gen.go"), b.Src, 0o644); err != nil {
 		return "", err
+	}
+	if b.DepSrc != nil {
+		ddir := filepath.Join(root, fmt.Sprintf("o%d", b.Opt), b.DepDir)
+		if err := os.MkdirAll(ddir, 0o755); err != nil {
+			return "", err
+		}
+		if err := os.WriteFile(filepath.Join(ddir, "gen.go"), b.DepSrc, 0o644); err != nil {
+			return "", err
+		}
 	}
 	var rb strings.Builder
 	fmt.Fprintf(&rb, "package %s\n\nimport \"github.com/200sc/bebop\"\n\n", b.PkgName())
